@@ -45,6 +45,7 @@ with warnings.catch_warnings():
     import ldap3.core.exceptions as ldap_exc
     from treadmill import context
     from treadmill import exc as tm_exc
+    from treadmill.admin import exc as admin_exc
     from treadmill.admin import ldapbackend
     from treadmill.api import allocation as alloc_api
 
@@ -376,6 +377,7 @@ class World:
             'stale_traits_stored': 0,
             'decimal_spelling_in_play': 0, 'lowercase_b_spelling_in_play': 0,
             'request_spelling_rejected_by_schema': 0,
+            'create_of_existing': 0, 'create_of_existing_refused': 0,
             'deleted': 0, 'allocation_deleted_with_reservations': 0,
         }
         # counters that are zero by construction on a generated history
@@ -383,7 +385,8 @@ class World:
         # update naming no partition is only *rejected as malformed* by a
         # tree whose schema requires one)
         self.extra = {'skipped_ops': 0, 'rejected_malformed': 0,
-                      'accepted_but_not_listed': 0}
+                      'accepted_but_not_listed': 0,
+                      'create_of_existing_accepted': 0}
         self.faults = {
             'partition_missing_at_request': 0, 'partition_without_limits': 0,
             'reservation_without_traits': 0, 'partition_resized': 0,
@@ -529,12 +532,16 @@ class World:
 
     def _request(self, kind, op):
         key = self._target(op)
-        if key is None or (kind == 'create') == (key in self.model.res):
+        if key is None or (kind == 'update' and key not in self.model.res):
             return self._skip('%s target' % kind)
         alloc, cell = key
         model = self.model
         probes = self.probes
-        old = model.res.get(key)
+        # a create for an allocation and cell that already hold a reservation
+        # (a retried POST, two racing CLI calls): a full document, no merge
+        existing = kind == 'create' and key in model.res
+        via = ':via-create-of-existing' if existing else ''
+        old = model.res.get(key) if kind == 'update' else None
         rsrc = op['rsrc']
         eff = Model.reservation(rsrc, old)
         bad = model.misfit(key, cell, eff)
@@ -612,14 +619,26 @@ class World:
         except jsonschema.exceptions.ValidationError as err:
             outcome = 'invalid'
             reason = err.message
+        except admin_exc.AlreadyExistsResult as err:
+            if not existing:
+                return self._service_failure(err, kind, op)
+            outcome = 'exists'
         except Exception as err:  # pylint: disable=broad-except
             return self._service_failure(err, kind, op)
         self.log.ev('out', outcome, bad)
+        if existing:
+            probes['create_of_existing'] += 1
+        if outcome == 'exists':
+            # refused because the reservation exists: a rejected request
+            probes['create_of_existing_refused'] += 1
+            return None
 
         if outcome == 'accepted':
             probes['accepted'] += 1
+            if existing:
+                self.extra['create_of_existing_accepted'] += 1
             if bad is not None:
-                return self._over_capacity(kind, op, bad, eff, others, '')
+                return self._over_capacity(kind, op, bad, eff, others, via)
             # The C19 condition on what is now STORED (read back through the
             # API, parsed by the harness): the reservation just written,
             # counted with all others of its cell and partition.
@@ -637,7 +656,7 @@ class World:
                 return self._over_capacity(
                     kind, op, sbad, rec,
                     model.others(key, cell, rec['partition']),
-                    ':stale-traits' if stale else '')
+                    via or (':stale-traits' if stale else ''))
             return None
 
         if outcome == 'invalid' and offschema:
@@ -695,7 +714,7 @@ class World:
 OP_WEIGHTS = [
     ('create', 30), ('update', 30), ('delete', 7), ('set_partition', 4),
     ('del_partition', 1), ('add_alloc', 2), ('del_alloc', 1),
-    ('admin_write', 2),
+    ('admin_write', 2), ('recreate', 4),
 ]
 
 CPU_CHOICES = [0, 50, 100, 100, 150, 200, 300, 400]
@@ -955,6 +974,47 @@ class Generator:
     def g_admin_write(self, world):
         return self.g_create(world, admin=True)
 
+    def g_recreate(self, world):
+        """A create for an id that already holds a reservation, with or
+        without the stored traits repeated, sized around the partition room
+        and the room under the stored traits' limits."""
+        rng = self.rng
+        keys = sorted(world.model.res)
+        if not keys:
+            return None
+        key = rng.choice(keys)
+        old = world.model.res[key]
+        partition = old['partition']
+        if rng.random() < 0.1:
+            partition = self._partition_choice(world, key[1])
+        x = rng.random()
+        if x < 0.4:
+            traits, send = list(old['traits']), True
+        elif x < 0.8:
+            traits, send = [], False
+        else:
+            traits, send = self._traits(), True
+        rsrc = self._sizes(world, key, partition, traits,
+                           self.config['p_req_decimal'])
+        if rng.random() < 0.5:
+            # just over what the stored traits' limits leave, within what
+            # the partition leaves
+            model = world.model
+            room = model.free(key, key[1], partition, [])
+            troom = model.free(key, key[1], partition, old['traits'])
+            for dim in DIMS:
+                if rng.random() < 0.6:
+                    val = min(max(troom[dim], 0) // UNIT[dim] * UNIT[dim] +
+                              UNIT[dim] * rng.choice([1, 1, 64]),
+                              max(room[dim], 0) // UNIT[dim] * UNIT[dim])
+                    rsrc[dim] = spell(rng, dim, val)
+        if partition != alloccheck.DEFAULT_PARTITION or rng.random() < 0.5:
+            rsrc['partition'] = partition
+        if send:
+            rsrc['traits'] = traits
+        self._extras(rsrc)
+        return {'op': 'create', 'id': '%s/%s' % key, 'rsrc': rsrc}
+
     def g_update(self, world):
         rng = self.rng
         cfg = self.config
@@ -1090,7 +1150,10 @@ class AllocSim(enginemod.Engine):
                 'reservations are the first recorded ops; then an adaptive '
                 'generator issues create/update/delete requests whose sizes '
                 'are drawn by intent (random, fraction of what is free, '
-                'exactly what is free, one unit more, one unit less, zero) '
+                'exactly what is free, one unit more, one unit less, zero), '
+                'creates for ids that already hold a reservation (with and '
+                'without the stored traits repeated, sized around the trait '
+                'limits and the partition room), '
                 'in mixed unit spellings (K/M/G in either case; capacities, '
                 'limits and administrator-written reservations also in '
                 'decimal KB/MB/GB with every letter in either case: gb, Gb, '
@@ -1132,9 +1195,13 @@ class AllocSim(enginemod.Engine):
             '(stale_traits_stored), not a violation',
             'requests are atomic (no concurrent check-then-write of two API '
             'processes); no clock is involved, simulated seconds are 0',
-            'create is only sent for an id that has no reservation and whose '
-            'allocation exists, update/delete only for an existing one (ops '
-            'whose target is absent are no-ops); partition: null is not '
+            'a create for an id that already holds a reservation may be '
+            'refused with AlreadyExistsResult (a rejected request) or with an '
+            'input error; if it is accepted, the request and the reservation '
+            'then stored must fit (signature suffix :via-create-of-existing); '
+            'create is only sent when the allocation exists, update/delete '
+            'only for an existing reservation (ops whose target is absent '
+            'are no-ops); partition: null is not '
             'generated (its meaning is not settled by the statement)',
             'names are lower-case ASCII without LDAP special characters; the '
             'in-memory directory compares DNs and values exactly',
